@@ -39,7 +39,7 @@ func analyseCuts(events []Event, s *Solver) (*CutReport, error) {
 	rep.Goroutines = n
 	seq := make([][]Event, n)
 	for _, e := range events {
-		if e.Kind == "block" {
+		if e.Kind == "block" || e.Kind == "mkbuffered" {
 			continue
 		}
 		seq[e.G] = append(seq[e.G], e)
@@ -67,6 +67,8 @@ func analyseCuts(events []Event, s *Solver) (*CutReport, error) {
 			closers[e.Obj][e.G] = true
 		case "select":
 			rep.KahnViolations = append(rep.KahnViolations, "select statement used")
+		case "mkbuffered":
+			rep.KahnViolations = append(rep.KahnViolations, fmt.Sprintf("channel %d is buffered (capacity %d): the rendezvous encoding of the cut queries does not apply", e.Obj, e.N))
 		}
 	}
 	for c, gs := range senders {
